@@ -164,6 +164,7 @@ struct InclEngine : Engine {
 		knobs["slab_objects"] = kn.chance(1, 3) ? 3 : 1024;
 		knobs["realloc"] = 1;
 		knobs["read_chunk"] = kn.chance(1, 3) ? (int64_t)kn.range(1, 9) : 0;
+		knobs["malloc_fill"] = kn.chance(1, 2) ? 1 : 0;      // fresh heap memory holds garbage that depends on the allocation history (core.h)
 		p["knobs"] = knobs;
 		int nfiles = (int)w.range(1, 6);
 		static const char * dirs[] = {"/sim/w", "/sim/w/sub", "/sim/x"};
